@@ -163,7 +163,7 @@ def check_C01(ctx):
     ctx.assumptions += ['bounded model (constants in the cfg files named under mc_runs)',
                         'byte fidelity is sampled over the shape classes of the concretisation, not exhaustive',
                         'hook counters are trusted to tell when background flush/compaction is idle']
-    tlc_mc(ctx, 'MC_Store', 'MC_Store_quick.cfg' if ctx.quick() else 'MC_Store_thorough.cfg', timeout=280 if ctx.quick() else 3000)
+    tlc_mc(ctx, 'MC_Store', 'MC_Store_quick.cfg' if ctx.quick() else 'MC_Store_thorough.cfg', timeout=900 if ctx.quick() else 3000)
     if not ctx.quick():
         tlc_mc(ctx, 'MC_Store', 'MC_Store_quick_imm.cfg', timeout=900)
     n = 250 if ctx.quick() else 2500
@@ -186,7 +186,7 @@ def check_C01(ctx):
 def check_C08(ctx):
     ctx.assumptions += ['bounded model (constants in the cfg files named under mc_runs)',
                         'log retirement (replication retention) is outside C08: once the files are gone nothing records their numbers']
-    tlc_mc(ctx, 'MC_Store', 'MC_Store_quick.cfg' if ctx.quick() else 'MC_Store_thorough.cfg', timeout=280 if ctx.quick() else 3000)
+    tlc_mc(ctx, 'MC_Store', 'MC_Store_quick.cfg' if ctx.quick() else 'MC_Store_thorough.cfg', timeout=900 if ctx.quick() else 3000)
     n = 250 if ctx.quick() else 2500
     behs = gen(ctx, 'GEN_Store_noretire.cfg', n)
     behs = [b for b in corpus('store.ndjson') if 'retire' not in [s['a'] for s in b]] + behs
@@ -226,7 +226,7 @@ def check_C12(ctx):
                         'tombstone retention by age (24 h) cannot be exercised in a check']
     if not ctx.quick():
         tlc_mc(ctx, 'MC_Store', 'MC_Store_thorough.cfg', timeout=3000)
-    tlc_mc(ctx, 'MC_Store', 'MC_Store_compact.cfg', timeout=280 if ctx.quick() else 900)
+    tlc_mc(ctx, 'MC_Store', 'MC_Store_compact.cfg', timeout=900 if ctx.quick() else 900)
     n = 250 if ctx.quick() else 2000
     behs = gen(ctx, 'GEN_Store_compact.cfg', n, seed_off=3)
     behs = corpus('store.ndjson') + corpus('compact.ndjson') + behs
